@@ -3,6 +3,7 @@ from hypothesis import strategies as st
 
 from .. import approute, refmodel as rm
 from .. import simnet
+from ..fakesock import Interrupt
 from ..runner import Obs, exc_bucket, hyp_run
 
 ID = "C09"
@@ -205,7 +206,7 @@ def run_case(case):
                 ws = approute.connect(websocket, "ws://origin.test/start", opts)  # a failed connection is reported to on_error
             else:
                 ws = websocket.create_connection("ws://origin.test/start", timeout=5, **opts)
-        except Exception as e:
+        except (Exception, Interrupt) as e:
             raised = e
     exp = expected(case, resp_lens)
     limit = 3 if case.get("redirect_limit") is None else case["redirect_limit"]
@@ -359,7 +360,7 @@ def cases(draw):
         case["pre"] = draw(st.integers(1, 4))
     if draw(st.integers(0, 5)) == 0:
         case["fault"] = {"hop": draw(st.integers(0, len(hops) - 1)), "at": draw(st.integers(0, 200)),
-                         "kind": draw(st.sampled_from(["eof", "timeout"])), "flavour": draw(st.integers(0, 2))}
+                         "kind": draw(st.sampled_from(["eof", "timeout"])), "flavour": draw(st.sampled_from([0, 1, 2] + ([4] if case["api"] != "app" else [])))}
     return case
 
 
@@ -379,6 +380,10 @@ def offset_cases():
                     c = dict(b)
                     c["fault"] = {"hop": hop, "at": at, "kind": kind, "flavour": at % 3}
                     yield c
+                # the blocked read interrupted from outside (green-thread timeout, signal): not an Exception, the clean-up is owed all the same
+                c = dict(b)
+                c["fault"] = {"hop": hop, "at": at, "kind": "timeout", "flavour": 4}
+                yield c
 
 
 def status_cases():
